@@ -7,6 +7,7 @@ import (
 	"bytes"
 	"fmt"
 	"go/ast"
+	"go/parser"
 	"go/printer"
 	"go/token"
 	"go/types"
@@ -170,7 +171,70 @@ func normalizedFuncText(w *World, fd *ast.FuncDecl, rename map[string]string) st
 	for from, to := range rename {
 		s = strings.ReplaceAll(s, from, to)
 	}
-	return s
+	// normal form on a private copy (re-parsed text): parameters and locals are named by declaration order, and
+	// statements that only print a Go comment into the emitted file are dropped -- neither changes what is emitted
+	// apart from comments, so twins that differ only there still emit behaviourally identical code
+	fset := token.NewFileSet()
+	f, err := parser.ParseFile(fset, "twin.go", "package p\n"+s, 0)
+	if err != nil || len(f.Decls) != 1 {
+		return s
+	}
+	nfd, ok := f.Decls[0].(*ast.FuncDecl)
+	if !ok {
+		return s
+	}
+	names := map[*ast.Object]string{}
+	ast.Inspect(nfd, func(n ast.Node) bool {
+		id, ok := n.(*ast.Ident)
+		if !ok || id.Obj == nil || id.Obj.Kind != ast.Var || id.Name == "_" {
+			return true
+		}
+		if _, seen := names[id.Obj]; !seen {
+			names[id.Obj] = fmt.Sprintf("v%d", len(names))
+		}
+		id.Name = names[id.Obj]
+		return true
+	})
+	var strip func(list []ast.Stmt) []ast.Stmt
+	isCommentPrint := func(st ast.Stmt) bool {
+		es, ok := st.(*ast.ExprStmt)
+		if !ok {
+			return false
+		}
+		call, ok := es.X.(*ast.CallExpr)
+		if !ok || len(call.Args) == 0 {
+			return false
+		}
+		sel, ok := call.Fun.(*ast.SelectorExpr)
+		if !ok || sel.Sel.Name != "P" {
+			return false
+		}
+		lit, ok := call.Args[0].(*ast.BasicLit)
+		return ok && lit.Kind == token.STRING && (strings.HasPrefix(lit.Value, "\"//") || strings.HasPrefix(lit.Value, "`//"))
+	}
+	strip = func(list []ast.Stmt) []ast.Stmt {
+		var out []ast.Stmt
+		for _, st := range list {
+			if !isCommentPrint(st) {
+				out = append(out, st)
+			}
+		}
+		return out
+	}
+	ast.Inspect(nfd, func(n ast.Node) bool {
+		switch x := n.(type) {
+		case *ast.BlockStmt:
+			x.List = strip(x.List)
+		case *ast.CaseClause:
+			x.Body = strip(x.Body)
+		case *ast.CommClause:
+			x.Body = strip(x.Body)
+		}
+		return true
+	})
+	b.Reset()
+	cfg.Fprint(&b, fset, nfd)
+	return b.String()
 }
 
 func stripComments(fd *ast.FuncDecl) *ast.FuncDecl {
